@@ -19,7 +19,7 @@
 //
 // Exactly one goroutine runs at a time: after releasing one, the controller
 // waits for its next event (parked somewhere, returned, panicked).  No
-// sleeps; a watchdog timer only turns a hang into an OStuck observation.
+// sleeps; a 10 s watchdog timer only turns a hang into an OStuck observation.
 package main
 
 import (
@@ -207,7 +207,7 @@ func (h *iharness) await(t *thr) (evt, error) {
 			return e, fmt.Errorf("event from thread %d while thread %d was released", e.tid, t.id)
 		}
 		return e, nil
-	case <-time.After(3 * time.Second):
+	case <-time.After(10 * time.Second):
 		return evt{tid: t.id, kind: evStuck}, nil
 	}
 }
